@@ -6,7 +6,7 @@ import numpy as np
 from hypothesis import strategies as st
 
 from .. import gen
-from ..harness import Clause, Prop, require
+from ..harness import Clause, Prop, require, rt
 
 CI_METHODS = ["quantile", "bc", "bca"]
 SMOOTH = [("replacement+smoothing", None), ("dynamic+smoothing", "by_label")]
@@ -104,7 +104,9 @@ def _cases(draw):
                 k=draw(st.sampled_from([2.0, 3.0, -1.0, 1e-5, 1e-8, 1e6])),
                 nb=draw(st.integers(1, 12)), builtin=list(builtin), ratio=draw(st.sampled_from([0.5, 0.8])),
                 seed=draw(gen.RNG_SEED), seed2=draw(gen.RNG_SEED),
-                alpha=draw(st.sampled_from([0.05, 0.1, 0.3, 0.5])), ci=draw(st.sampled_from(CI_METHODS)))
+                alpha=draw(st.sampled_from([0.05, 0.1, 0.3, 0.5])), ci=draw(st.sampled_from(CI_METHODS)),
+                alpha_vec=draw(st.one_of(st.none(), st.lists(st.sampled_from([0.01, 0.05, 0.2, 0.5, 0.9]),
+                                                             min_size=1, max_size=3))))
 
 
 def _eq(a, b):
@@ -143,7 +145,7 @@ def check(case):
     # --- 2. built-in sampler: seeded replay by hand
     method, strat = case["builtin"]
     smoothing = method.endswith("+smoothing")
-    cfg = BootstrapConfig(nb_samples=nb, sampling_method=method.split("+")[0], stratified_sampling=strat,
+    cfg = BootstrapConfig(nb_samples=nb, sampling_method=rt(method.split("+")[0]), stratified_sampling=rt(strat),
                           ratio=case["ratio"] if method == "proportion" else None,
                           bootstrap_method=case["ci"], smoothing=smoothing)
     np.random.seed(case["seed"])
@@ -198,6 +200,21 @@ def check(case):
                             f"{TH[j]!r} gives [{lo!r}, {up!r}]")
     else:
         require(got == exp, "bci:wiring", f"{ctx}: {got} vs {exp}")
+
+    # --- 3b. vector-valued alpha (documented for the quantile method): entry [.., z, :] is the
+    # interval for alpha[z], i.e. what the scalar call gives
+    if case["ci"] == "quantile" and case.get("alpha_vec"):
+        av = np.asarray(case["alpha_vec"], dtype=float)
+        np.random.seed(case["seed"])
+        got_v = np.asarray(o.bootstrap_ci(metric, alpha=av, config=cfg, **kw))
+        require(got_v.shape == theta_hat.shape + (len(av), 2), "bci:shape",
+                f"{ctx}: alpha of shape {av.shape} gives {got_v.shape}")
+        for z, a_ in enumerate(av.tolist()):
+            np.random.seed(case["seed"])
+            one = np.asarray(o.bootstrap_ci(metric, alpha=a_, config=cfg, **kw))
+            require(_eq(got_v[..., z, :], one), "bci:alpha-vector",
+                    lambda: f"{ctx}: entry for alpha[{z}]={a_!r} of the vector call {got_v[..., z, :].tolist()} "
+                            f"differs from the scalar call {one.tolist()}")
 
     # --- 4. identity sampler collapses to the point estimate
     ident = BootstrapConfig(nb_samples=max(nb, 2), sampling_method=lambda s: s)
@@ -260,7 +277,10 @@ def _seq_cases(draw):
     big = draw(st.booleans())
     n = draw(st.integers(100, 125) if big else st.integers(3, 12))
     m = draw(st.integers(100, 125) if big else st.integers(3, 12))
-    return dict(n=n, m=m, ep=draw(st.sampled_from([0, 0, 4])), en=draw(st.sampled_from([0, 0, 9])),
+    grouped = draw(st.booleans())
+    return dict(n=n, m=m, ep=0 if grouped else draw(st.sampled_from([0, 0, 4])),
+                en=0 if grouped else draw(st.sampled_from([0, 0, 9])), grouped=grouped,
+                touch=draw(st.sampled_from([None, 0, 1, 2])),
                 perm=draw(st.integers(0, 10**6)), sc=draw(st.sampled_from(["pos", "neg"])),
                 steps=draw(st.lists(st.tuples(st.integers(0, len(SEQ_CONFIGS) - 1), st.integers(0, 2**31 - 1)),
                                     min_size=2, max_size=4)),
@@ -275,7 +295,16 @@ def check_sequence(case):
     vals = (np.random.RandomState(case["perm"]).permutation(case["n"] + case["m"]) * 0.25).tolist()
     pos, neg = vals[: case["n"]], vals[case["n"]:]
 
+    names = ["adult", "child", "senior"]
+
     def build():
+        if case.get("grouped"):
+            from score_analysis import GroupScores
+
+            pg = [names[i % 3] for i in range(len(pos))]
+            ng = [names[(2 * i + 1) % 3] for i in range(len(neg))]
+            return GroupScores(np.asarray(pos), np.asarray(neg), pos_groups=np.asarray(pg),
+                               neg_groups=np.asarray(ng), score_class=case["sc"])
         return Scores(np.asarray(pos), np.asarray(neg), nb_easy_pos=case["ep"], nb_easy_neg=case["en"],
                       score_class=case["sc"])
 
@@ -283,10 +312,15 @@ def check_sequence(case):
         return np.asarray([s.pos.mean(), s.neg.mean(), len(s.pos), len(s.neg), s.nb_easy_pos])
 
     o = build()
+    if case.get("grouped") and case.get("touch") is not None:
+        o[names[case["touch"]]]  # a pure accessor: looking at one group first must not matter
     kinds = set()
     for i, (ci, seed) in enumerate(case["steps"]):
         method, strat, smoothing = SEQ_CONFIGS[ci]
-        cfg = BootstrapConfig(nb_samples=case["nb"], sampling_method=method, stratified_sampling=strat,
+        if case.get("grouped"):
+            smoothing = False  # not implemented for GroupScores
+            strat = "by_group" if strat is None and ci % 2 == 0 else strat
+        cfg = BootstrapConfig(nb_samples=case["nb"], sampling_method=rt(method), stratified_sampling=rt(strat),
                               smoothing=smoothing, bootstrap_method="quantile")
         outs = []
         for obj in (o, build()):
